@@ -292,7 +292,7 @@ func replyUpdateUser(s *Session, msg *ClientComMessage, rec *auth.Rec) {
 			Lifetime:  auth.Duration(time.Hour * 24),
 			Features:  auth.FeatureNoLogin,
 		})
-		_, _, err := addCreds(uid, msg.Acc.Cred, nil, s.lang, tmpToken)
+		_, _, err = addCreds(uid, msg.Acc.Cred, nil, s.lang, tmpToken)
 		if err == nil {
 			if allCreds, err := store.Users.GetAllCreds(uid, "", true); err != nil {
 				var validated []string
